@@ -57,3 +57,76 @@ def family(usize=2):
        {'lhs': 'Y', 'nodes': [], 'edges': [{'label': 'c', 'att': []}, {'label': 'X', 'att': []}], 'ext': []},
        {'lhs': 'Y', 'nodes': [], 'edges': [{'label': 'd', 'att': []}], 'ext': []}], False)
     return S
+
+
+def linear_tensor_family():
+    """linearly recursive grammars with vector- and matrix-valued nonterminals over a size-2 domain, for gradient checks with
+    concrete recursion weights.  'concrete': {terminal: flat values} -- asymmetric dyadic matrices chosen so that (I - J)^-1 is dyadic
+    (exactly representable), spectral radius < 1."""
+    D = {'T': 2}
+    S = []
+
+    def g(name, nts, terms, rules, concrete, start='S'):
+        S.append({'name': name, 'concrete': concrete, 'log_ok': name in ('hmm_vec', 'two_recursive_rules', 'dead_rule_first'),
+                  'spec': {'start': start, 'domains': D, 'nonterminals': nts, 'terminals': terms, 'rules': rules}})
+    UT = [0.5, 0.25, 0.0, 0.5]          # [[1/2, 1/4], [0, 1/2]]
+    LT = [0.5, 0.0, 0.25, 0.75]         # [[1/2, 0], [1/4, 3/4]]
+    # X(v1,v2) -> a(v1,v2) | X(v1,v3) b(v3,v2);   S -> X(v1,v2) c(v1,v2)
+    g('matrix_right', {'S': [], 'X': ['T', 'T']}, {'a': ['T', 'T'], 'b': ['T', 'T'], 'c': ['T', 'T']},
+      [{'lhs': 'S', 'nodes': ['T', 'T'], 'edges': [{'label': 'X', 'att': [0, 1]}, {'label': 'c', 'att': [0, 1]}], 'ext': []},
+       {'lhs': 'X', 'nodes': ['T', 'T'], 'edges': [{'label': 'a', 'att': [0, 1]}], 'ext': [0, 1]},
+       {'lhs': 'X', 'nodes': ['T', 'T', 'T'], 'edges': [{'label': 'X', 'att': [0, 2]}, {'label': 'b', 'att': [2, 1]}], 'ext': [0, 1]}], {'b': UT})
+    # X(v1,v2) -> a(v1,v2) | b(v1,v3) X(v3,v2)
+    g('matrix_left', {'S': [], 'X': ['T', 'T']}, {'a': ['T', 'T'], 'b': ['T', 'T'], 'c': ['T', 'T']},
+      [{'lhs': 'S', 'nodes': ['T', 'T'], 'edges': [{'label': 'X', 'att': [0, 1]}, {'label': 'c', 'att': [0, 1]}], 'ext': []},
+       {'lhs': 'X', 'nodes': ['T', 'T'], 'edges': [{'label': 'a', 'att': [0, 1]}], 'ext': [0, 1]},
+       {'lhs': 'X', 'nodes': ['T', 'T', 'T'], 'edges': [{'label': 'b', 'att': [0, 2]}, {'label': 'X', 'att': [2, 1]}], 'ext': [0, 1]}], {'b': LT})
+    # the matrix-valued nonterminal is the start symbol (cotangent with 4 cells), externals listed in swapped order in the recursive rule
+    g('matrix_start', {'X': ['T', 'T']}, {'a': ['T', 'T'], 'b': ['T', 'T']},
+      [{'lhs': 'X', 'nodes': ['T', 'T'], 'edges': [{'label': 'a', 'att': [0, 1]}], 'ext': [0, 1]},
+       {'lhs': 'X', 'nodes': ['T', 'T', 'T'], 'edges': [{'label': 'b', 'att': [1, 2]}, {'label': 'X', 'att': [0, 2]}], 'ext': [0, 1]}], {'b': UT}, start='X')
+    # HMM-shaped vector recursion
+    g('hmm_vec', {'S': [], 'X': ['T']}, {'s': ['T'], 't': ['T', 'T'], 'e': ['T']},
+      [{'lhs': 'S', 'nodes': ['T'], 'edges': [{'label': 's', 'att': [0]}, {'label': 'X', 'att': [0]}], 'ext': []},
+       {'lhs': 'X', 'nodes': ['T', 'T'], 'edges': [{'label': 't', 'att': [0, 1]}, {'label': 'X', 'att': [1]}], 'ext': [0]},
+       {'lhs': 'X', 'nodes': ['T'], 'edges': [{'label': 'e', 'att': [0]}], 'ext': [0]}], {'t': UT})
+    # two rules feeding the same Jacobian block:  X -> l X | r X | e
+    g('two_recursive_rules', {'S': [], 'X': ['T']}, {'s': ['T'], 'l': ['T', 'T'], 'r': ['T', 'T'], 'e': ['T']},
+      [{'lhs': 'S', 'nodes': ['T'], 'edges': [{'label': 's', 'att': [0]}, {'label': 'X', 'att': [0]}], 'ext': []},
+       {'lhs': 'X', 'nodes': ['T', 'T'], 'edges': [{'label': 'l', 'att': [0, 1]}, {'label': 'X', 'att': [1]}], 'ext': [0]},
+       {'lhs': 'X', 'nodes': ['T', 'T'], 'edges': [{'label': 'r', 'att': [0, 1]}, {'label': 'X', 'att': [1]}], 'ext': [0]},
+       {'lhs': 'X', 'nodes': ['T'], 'edges': [{'label': 'e', 'att': [0]}], 'ext': [0]}], {'l': [0.25, 0.25, 0.0, 0.25], 'r': [0.25, 0.0, 0.0, 0.25]})
+    # mutual recursion of two vector-valued nonterminals
+    g('vec_two_cycle', {'S': [], 'X': ['T'], 'Y': ['T']}, {'s': ['T'], 't': ['T', 'T'], 'u': ['T', 'T'], 'e': ['T'], 'f': ['T']},
+      [{'lhs': 'S', 'nodes': ['T'], 'edges': [{'label': 's', 'att': [0]}, {'label': 'X', 'att': [0]}], 'ext': []},
+       {'lhs': 'X', 'nodes': ['T', 'T'], 'edges': [{'label': 't', 'att': [0, 1]}, {'label': 'Y', 'att': [1]}], 'ext': [0]},
+       {'lhs': 'X', 'nodes': ['T'], 'edges': [{'label': 'e', 'att': [0]}], 'ext': [0]},
+       {'lhs': 'Y', 'nodes': ['T', 'T'], 'edges': [{'label': 'u', 'att': [0, 1]}, {'label': 'X', 'att': [1]}], 'ext': [0]},
+       {'lhs': 'Y', 'nodes': ['T'], 'edges': [{'label': 'f', 'att': [0]}], 'ext': [0]}], {'t': [0.5, 0.25, 0.0, 0.75], 'u': [1.0, 0.5, 0.0, 1.0]})
+    # a dead rule first: Y never terminates, so X -> Y e contributes nothing;  S -> X d
+    g('dead_rule_first', {'S': [], 'X': ['T'], 'Y': ['T']}, {'d': ['T'], 'e': ['T'], 'a': ['T'], 'b': ['T', 'T'], 'c': ['T']},
+      [{'lhs': 'S', 'nodes': ['T'], 'edges': [{'label': 'X', 'att': [0]}, {'label': 'd', 'att': [0]}], 'ext': []},
+       {'lhs': 'X', 'nodes': ['T'], 'edges': [{'label': 'Y', 'att': [0]}, {'label': 'e', 'att': [0]}], 'ext': [0]},
+       {'lhs': 'X', 'nodes': ['T'], 'edges': [{'label': 'a', 'att': [0]}], 'ext': [0]},
+       {'lhs': 'X', 'nodes': ['T', 'T'], 'edges': [{'label': 'b', 'att': [0, 1]}, {'label': 'X', 'att': [1]}], 'ext': [0]},
+       {'lhs': 'Y', 'nodes': ['T'], 'edges': [{'label': 'Y', 'att': [0]}, {'label': 'c', 'att': [0]}], 'ext': [0]}], {'b': UT, 'c': [0.5, 0.75], 'e': [0.5, 1.0]})
+    return S
+
+
+def dead_scc_family():
+    """scalar SCC {X, Y} in which Y is structurally unproductive (every rule of Y contains Y), so that the rule X -> Y e is dead;
+    the dead rule is placed first / in the middle / last among X's rules"""
+    D = {'T': 2}
+    out = []
+    live = [{'lhs': 'X', 'nodes': [], 'edges': [{'label': 'a', 'att': []}], 'ext': []},
+            {'lhs': 'X', 'nodes': [], 'edges': [{'label': 'b', 'att': []}, {'label': 'X', 'att': []}], 'ext': []}]
+    deadr = {'lhs': 'X', 'nodes': [], 'edges': [{'label': 'Y', 'att': []}, {'label': 'e', 'att': []}], 'ext': []}
+    for pos, name in ((0, 'dead_first'), (1, 'dead_middle'), (2, 'dead_last')):
+        xr = list(live)
+        xr.insert(pos, deadr)
+        rules = [{'lhs': 'S', 'nodes': [], 'edges': [{'label': 'X', 'att': []}, {'label': 'd', 'att': []}], 'ext': []}] + xr + \
+                [{'lhs': 'Y', 'nodes': [], 'edges': [{'label': 'X', 'att': []}, {'label': 'Y', 'att': []}, {'label': 'c', 'att': []}], 'ext': []}]
+        out.append({'name': name, 'linear': False, 'scc': ['X', 'Y'], 'dead': ['Y'],
+                    'spec': {'start': 'S', 'domains': D, 'nonterminals': {'S': [], 'X': [], 'Y': []},
+                             'terminals': {'a': [], 'b': [], 'c': [], 'd': [], 'e': []}, 'rules': rules}})
+    return out
